@@ -61,15 +61,17 @@ Proof. exact reopen_restores_proof. Qed.
 Print Assumptions C11_reopen_restores.
 
 (* PARTIAL (as far as the model carries it): in a block of plain operations on a writable workspace, the writer routines of
-   every operation that completed before the exit are in the file, in order, followed by the closing save -- for every
+   every operation that completed before the exit are in the file, in order, followed by the concatenator refresh that close
+   performs under `repack` and the closing save -- for every
    exception position k; and for arbitrary blocks nothing that was written is ever removed by the exit.
    Missing for the full property: that the HDF5 content written by those routines is the state the API showed (C01's subject)
    and that the file is structurally valid (C02's subject). *)
 Theorem C11_completed_ops_persist_partial : forall ops k w m,
   handle_of w = Open m -> writable m = true -> close_fault w = false ->
   forallb is_calls ops = true -> forallb op_total ops = true ->
-  file (fst (with_block ops k w))
-    = file w ++ List.concat (map (fun o => writer_log (calls_of o)) (firstn k ops)) ++ ["H5Writer.save_entity"]
+  (exists refresh, Forall is_refresh refresh /\
+     file (fst (with_block ops k w))
+       = file w ++ List.concat (map (fun o => writer_log (calls_of o)) (firstn k ops)) ++ refresh ++ ["H5Writer.save_entity"])
   /\ snd (with_block ops k w) = (if Nat.ltb k (List.length ops) then Some EInjected else None).
 Proof. exact completed_ops_persist_proof. Qed.
 Print Assumptions C11_completed_ops_persist_partial.
@@ -82,22 +84,23 @@ Print Assumptions C11_append_only.
    try/finally, so when the final save raises, File.close is not reached -- the handle stays open and that error replaces
    the block's.  The driver reproduces this on the implementation by injecting an OSError into the final save. *)
 Theorem C11_close_not_exception_safe : forall w m,
-  handle_of w = Open m -> writable m = true -> close_fault w = true ->
+  handle_of w = Open m -> writable m = true -> close_fault w = true -> repack w = false ->
   handle_of (fst (with_block [] 0 w)) = Open m /\ snd (with_block [] 0 w) = Some EFail.
 Proof. exact close_fault_leaks. Qed.
 Print Assumptions C11_close_not_exception_safe.
 
 (* non-vacuity: a writable block with three operations, exception after the second *)
 Example C11_nonvacuous :
-  let rd := {| c_fn := "H5Reader.fetch_values"; c_writer := false; c_req := R; c_fails := false |} in
-  let wr f := {| c_fn := f; c_writer := true; c_req := RW; c_fails := false |} in
-  let ops := [Calls [wr "H5Writer.save_entity"]; Calls [rd; wr "H5Writer.update_field"; wr "H5Writer.clear_stats_cache"];
-              Calls [wr "H5Writer.remove_entity"]] in
-  let w := {| handle_of := Open RW; defmode := RW; file := []; locked := false; close_fault := false |} in
+  let rd := {| c_fn := "H5Reader.fetch_values"; c_writer := false; c_req := R; c_fails := false; c_repack := false |} in
+  let wr f b := {| c_fn := f; c_writer := true; c_req := RW; c_fails := false; c_repack := b |} in
+  let ops := [Calls [wr "H5Writer.save_entity" false]; Calls [rd; wr "H5Writer.update_field" true; wr "H5Writer.clear_stats_cache" false];
+              Calls [wr "H5Writer.remove_entity" false]] in
+  let w := {| handle_of := Open RW; defmode := RW; file := []; locked := false; close_fault := false; repack := false; ncat := 1 |} in
   forallb is_calls ops = true /\ forallb op_total ops = true
   /\ with_block ops 2 w =
        ({| handle_of := Closed; defmode := RW;
-           file := ["H5Writer.save_entity"; "H5Writer.update_field"; "H5Writer.clear_stats_cache"; "H5Writer.save_entity"];
-           locked := false; close_fault := false |}, Some EInjected)
+           file := ["H5Writer.save_entity"; "H5Writer.update_field"; "H5Writer.clear_stats_cache";
+                    "H5Writer.update_field"; "H5Writer.clear_stats_cache"; "H5Writer.save_entity"];
+           locked := false; close_fault := false; repack := false; ncat := 1 |}, Some EInjected)
   /\ step (fst (with_block ops 2 w)) (Calls [rd]) = (fst (with_block ops 2 w), Some EClosed).
 Proof. cbv zeta. repeat split; vm_compute; reflexivity. Qed.
